@@ -17,6 +17,7 @@ CONSTANTS
   MAXREC = 2
   NOOPBUDGET = 1
   VSTAKERS = {"v"}
+  PATHS = {"keeper", "pc"}
   NONEMPTY = FALSE
   BLOCKW = 1
 VIEW View
